@@ -115,10 +115,11 @@ Qed.
 (* an accepted policy of negative rate: on its last block PolicyCalculations, run with the block rate PolicyStart will store,
    gives a running rate above -1 (1 + rate > 0: nothing in block processing divides by zero because of it) - whatever the
    earlier policies left behind *)
-Lemma end_rate_ok_inv pm br : end_rate_ok pm br = Ok tt -> pm_gov pm < 0 ->
+Lemma end_rate_ok_inv pm br : end_rate_ok pm br = Ok tt -> pm_gov pm < 0 -> 0 < pm_epoch_len pm ->
   exists b, br = Some b /\ (0 <= b \/ exists r, policy_end_rate pm b = Ok r /\ - PREC < r).
 Proof.
-  unfold end_rate_ok. intros Hok Hg. destruct (Z.leb_spec 0 (pm_gov pm)) as [Hge|Hlt]; [lia|].
+  unfold end_rate_ok. intros Hok Hg Hl. destruct (Z.leb_spec 0 (pm_gov pm)) as [Hge|Hlt]; [lia|].
+  destruct (Z.leb_spec (pm_epoch_len pm) 0) as [Hle|Hgt]; [lia|]. cbn [orb] in Hok.
   destruct br as [b|]; [|discriminate]. exists b. split; [reflexivity|].
   destruct (Z.leb_spec 0 b) as [Hb|Hb]; [left; assumption|right].
   apply bind_ok_inv in Hok as (r & Hr & Hok). exists r. split; [exact Hr|].
@@ -130,23 +131,52 @@ Lemma update_pmtp_params_end_rate s g el st en br s' :
   exists b, br = Some b /\ (0 <= b \/ exists r, policy_end_rate (pol_pmtp s') b = Ok r /\ - PREC < r).
 Proof.
   unfold update_pmtp_params.
-  destruct (el <=? 0); [discriminate|]. destruct (st <? 0); [discriminate|].
+  destruct (Z.leb_spec el 0) as [Hel|Hel]; [discriminate|]. destruct (st <? 0); [discriminate|].
   destruct (en <=? 0); [discriminate|]. destruct (en <? st); [discriminate|].
   destruct (negb _); [discriminate|]. destruct (in_window s); [discriminate|]. destruct (st <=? pol_height s); [discriminate|].
   destruct g as [| |gv].
   - intros Hup. apply bind_ok_inv in Hup as (u & Hu & Hup). injection Hup as <-. cbn [pol_pmtp]. intros Hg. split; [reflexivity|].
-    destruct u. exact (end_rate_ok_inv _ _ Hu Hg).
+    destruct u. apply (end_rate_ok_inv _ _ Hu Hg). cbn. exact Hel.
   - discriminate.
   - destruct (gv <=? - PREC); [discriminate|]. intros Hup. apply bind_ok_inv in Hup as (u & Hu & Hup). injection Hup as <-. cbn [pol_pmtp].
-    intros Hg. split; [reflexivity|]. destruct u. exact (end_rate_ok_inv _ _ Hu Hg).
+    intros Hg. split; [reflexivity|]. destruct u. apply (end_rate_ok_inv _ _ Hu Hg). cbn. exact Hel.
 Qed.
 (* ... and that is the rate the begin blocker computes on that block: PolicyStart stores the block rate, PolicyCalculations uses it *)
 Lemma policy_end_rate_is_calc pm b r : policy_end_rate pm b = Ok r ->
   exists pm', policy_calc (pm <| pm_block_rate := b |>) (pm_end pm) = Ok pm' /\ pm_running pm' = r.
 Proof. unfold policy_end_rate. intros H. apply bind_ok_inv in H as (pm' & Hc & H). injection H as <-. exists pm'. auto. Qed.
 
-Lemma modify_pmtp_rates_safe s b r e s' :
-  PMSafe (pol_pmtp s) -> modify_pmtp_rates s b r e = Ok s' ->
+(* ModifyPmtpRates: a running rate set while a policy of negative rate is scheduled (not started yet) is the rate that policy
+   starts from: it is accepted only if the policy still ends above -1 *)
+Lemma modify_pmtp_rates_end_rate s b rv e br s' :
+  modify_pmtp_rates s b (DVal rv) e br = Ok s' -> in_window s = false -> pol_height s < pm_start (pol_pmtp s) ->
+  pm_gov (pol_pmtp s) < 0 -> 0 < pm_epoch_len (pol_pmtp s) ->
+  pm_inter (pol_pmtp s') = rv /\ pm_gov (pol_pmtp s') = pm_gov (pol_pmtp s) /\
+  pm_start (pol_pmtp s') = pm_start (pol_pmtp s) /\ pm_end (pol_pmtp s') = pm_end (pol_pmtp s) /\
+  exists bb, br = Some bb /\ (0 <= bb \/ exists r, policy_end_rate (pol_pmtp s') bb = Ok r /\ - PREC < r).
+Proof.
+  intros H Hw Hh Hg Hl. unfold modify_pmtp_rates in H. rewrite Hw in H.
+  apply bind_ok_inv in H as (pm1 & H1 & H). apply bind_ok_inv in H as (pm2 & H2 & H).
+  rewrite andb_false_r in H. injection H as <-. cbn [pol_pmtp].
+  assert (E1 : pm_gov pm1 = pm_gov (pol_pmtp s) /\ pm_start pm1 = pm_start (pol_pmtp s) /\ pm_end pm1 = pm_end (pol_pmtp s) /\
+               pm_epoch_len pm1 = pm_epoch_len (pol_pmtp s)).
+  { destruct b; [injection H1 as <-; auto|discriminate|injection H1 as <-; auto]. }
+  destruct E1 as (G1 & G2 & G3 & G4).
+  destruct (rv <=? - PREC); [discriminate|].
+  destruct (Z.ltb_spec (pol_height s) (pm_start pm1)) as [Hlt|Hge]; [|lia].
+  apply bind_ok_inv in H2 as (u & Hu & H2). injection H2 as <-. cbn.
+  split; [reflexivity|]. split; [exact G1|]. split; [exact G2|]. split; [exact G3|].
+  unfold end_rate_ok in Hu. cbn -[PREC policy_end_rate Z.leb Z.opp] in Hu. rewrite G1, G4 in Hu.
+  destruct (Z.leb_spec 0 (pm_gov (pol_pmtp s))) as [Hx|Hx]; [lia|].
+  destruct (Z.leb_spec (pm_epoch_len (pol_pmtp s)) 0) as [Hy|Hy]; [lia|]. cbn [orb] in Hu.
+  destruct br as [bb|]; [|discriminate]. exists bb. split; [reflexivity|].
+  destruct (Z.leb_spec 0 bb) as [Hb|Hb]; [left; exact Hb|right].
+  apply bind_ok_inv in Hu as (r & Hr & Hu). exists r. split; [exact Hr|].
+  destruct (Z.leb_spec r (- PREC)) as [Hr1|Hr1]; [discriminate|exact Hr1].
+Qed.
+
+Lemma modify_pmtp_rates_safe s b r e br s' :
+  PMSafe (pol_pmtp s) -> modify_pmtp_rates s b r e br = Ok s' ->
   PMSafe (pol_pmtp s') /\
   (* a running rate given in the message is above -1 (1 + rate > 0) *)
   (forall rv, r = DVal rv -> in_window s = false -> - PREC < rv /\ pm_running (pol_pmtp s') = rv) /\
@@ -163,7 +193,10 @@ Proof.
     - destruct (in_window s) eqn:Ew; [|discriminate]. injection H2 as <-. split; [reflexivity|]. split; [reflexivity|]. discriminate.
     - destruct (in_window s) eqn:Ew.
       + injection H2 as <-. split; [reflexivity|]. split; [reflexivity|]. intros rv' _ Hf. discriminate.
-      + destruct (Z.leb_spec rv (- PREC)); [discriminate|]. injection H2 as <-. split; [reflexivity|]. split; [reflexivity|].
+      + destruct (Z.leb_spec rv (- PREC)); [discriminate|].
+        assert (H2' : pm2 = pm1 <| pm_running := rv |> <| pm_inter := rv |>).
+        { destruct (pol_height s <? pm_start pm1); [apply bind_ok_inv in H2 as (u & _ & H2)|]; injection H2 as <-; reflexivity. }
+        subst pm2. split; [reflexivity|]. split; [reflexivity|].
         intros rv' [= <-] _. split; [lia | reflexivity]. }
   destruct E1 as (A1 & A2), E2 as (B1 & B2 & B3).
   assert (G : forall pmf, pm_epoch_len pmf = pm_epoch_len pm2 -> pm_gov pmf = pm_gov pm2 -> PMSafe pmf).
@@ -307,7 +340,7 @@ Proof.
     rewrite forallb_forall in Ev. apply Forall_forall. intros p Hin. apply lppd_valid_safe; auto.
   - destruct (update_pmtp_params_safe _ _ _ _ _ _ _ HP H) as (S & _ & _ & E1 & E2 & E3 & E4).
     split; [|exact E4]. unfold PolSafe. rewrite E1, E2, E3. auto.
-  - destruct (modify_pmtp_rates_safe _ _ _ _ _ HP H) as (S & _ & E1 & E2 & E3 & E4).
+  - destruct (modify_pmtp_rates_safe _ _ _ _ _ _ HP H) as (S & _ & E1 & E2 & E3 & E4).
     split; [|exact E4]. unfold PolSafe. rewrite E1, E2, E3. auto.
   - destruct (update_lp_params_safe _ _ _ _ _ Ht H) as (S & E1 & E2 & E3 & E4).
     split; [|exact E4]. unfold PolSafe. rewrite E1, E2, E3. auto.
